@@ -245,43 +245,19 @@ func coqRunsOpt(has bool, runs []int64) string {
 }
 
 // colObserved renders a nullable primitive leaf as a cmeta literal, plus the
-// pair (selector order reconstructed from the selectors and the values
-// written, order of the entries in the metadata) when it has a dictionary.
+// order of the dictionary entries in the metadata ("" when there is none).
 func colObserved(meta vng.Metadata, r io.ReaderAt, vals []zcode.Bytes) (string, string, error) {
 	inner, runs, has, cnt, err := unwrapNulls(meta, r)
 	if err != nil {
 		return "", "", err
 	}
-	p, ord2, sels, err := primObserved(inner, r)
+	p, ord, _, err := primObserved(inner, r)
 	if err != nil {
 		return "", "", err
 	}
-	ord1 := ord2
-	if len(ord2) > 0 && len(sels) == len(vals) {
-		arr := make([]zcode.Bytes, len(ord2))
-		ok := true
-		for i, s := range sels {
-			if int(s) >= len(arr) {
-				ok = false
-				break
-			}
-			if arr[s] == nil {
-				arr[s] = vals[i]
-			} else if !bytes.Equal(arr[s], vals[i]) {
-				ok = false
-				break
-			}
-		}
-		for _, a := range arr {
-			ok = ok && a != nil
-		}
-		if ok {
-			ord1 = arr
-		}
-	}
 	ords := ""
-	if len(ord2) > 0 {
-		ords = "(" + coqOrd(ord1) + "," + coqOrd(ord2) + ")"
+	if len(ord) > 0 {
+		ords = coqOrd(ord)
 	}
 	if has {
 		return fmt.Sprintf("CNulls %s %d (%s)", coqNList(runs), cnt, p), ords, nil
@@ -323,7 +299,7 @@ func (m *modelCases) walk(n *snode, meta vng.Metadata, r io.ReaderAt, path strin
 			return fmt.Errorf("%s: %v", path, err)
 		}
 		if ords == "" {
-			ords = "([],[])"
+			ords = "[]"
 		}
 		big := len(n.bits) > smallColumn
 		key := fmt.Sprintf("%v|%v|%s", isSmall(n.typ), n.bits, lit)
@@ -555,7 +531,7 @@ func (m *modelCases) add(c *vcase, obj []byte) (err error) {
 		}
 		cols = append(cols, lit)
 		if ord != "" {
-			ords = append(ords, ord)
+			ords = append(ords, fmt.Sprintf("(%d,%s)", tyids[order[i]], ord))
 		}
 	}
 	var obs string
@@ -665,8 +641,8 @@ func (m *modelCases) coq(scale int) string {
 	sb.WriteString("Definition T := Eval vm_compute in (mk_table 1 tbl (FMapPositive.PositiveMap.empty bytes)).\n")
 	sb.WriteString("Definition b (i : positive) : bytes := tget T i.\n")
 	WriteCoqList(&sb, "nulls_cases", "(list bool * option (list N))", nulls)
-	WriteCoqList(&sb, "col_cases", "(bool * list N * (list bytes * list bytes) * cmeta)", cols)
-	WriteCoqList(&sb, "obj_cases", "(list tyid * list (tyid * N) * list (list bytes * list bytes) * ometa * option (list (tyid * N)) * option (list (tyid * N)))", objs)
+	WriteCoqList(&sb, "col_cases", "(bool * list N * list bytes * cmeta)", cols)
+	WriteCoqList(&sb, "obj_cases", "(list tyid * list (tyid * N) * list (tyid * list bytes) * ometa * option (list (tyid * N)) * option (list (tyid * N)))", objs)
 	sb.WriteString("Definition M := Eval vm_compute in (nulls_mismatches nulls_cases, col_mismatches T col_cases, obj_mismatches T obj_cases).\nPrint M.\n")
 	return sb.String()
 }
